@@ -13,6 +13,7 @@
 # limitations under the License.
 
 
+from copy import copy
 from typing import List
 from typing import Tuple
 
@@ -152,6 +153,8 @@ class PerceptionEvaluationManager(_EvaluationMangerBase):
             **self.filtering_params,
         )
 
+        # NOTE: evaluate a shallow copy so that the loaded dataset keeps all of its objects
+        frame_ground_truth = copy(frame_ground_truth)
         frame_ground_truth.objects = filter_objects(
             objects=frame_ground_truth.objects,
             is_gt=True,
